@@ -771,3 +771,97 @@ Proof.
   exists (fun _ l => Some l), (fun _ => true), f16_cfg, (fun _ _ => true), (fun _ => RAllow), f16_server, 20%nat, [97%N].
   vm_compute. split; lia.
 Qed.
+
+(* ------------------------------------------------------------------ part E *)
+(* a crawl over the rows of a finite site, for an arbitrary scheduler and arbitrary servers *)
+Section CrawlBounds.
+  Variable urljoin : vstr -> vstr -> option vstr.
+  Variable parseable : vstr -> bool.
+  Variable cfg : config.
+  Variable tries : Z.
+
+  Definition rows_obey_tries (rows : list crow) : Prop :=
+    forall r, List.In r rows -> forall tc url w, (tries <= tc)%Z -> cr_consult r tc url w = false.
+
+  Notation visit_nth' := (visit_nth urljoin parseable cfg).
+  Notation crawl' := (crawl urljoin parseable cfg).
+
+  Lemma row_budget_step : forall r env i' ev,
+    (forall tc url w, (tries <= tc)%Z -> cr_consult r tc url w = false) ->
+    visit_item urljoin parseable cfg (cr_consult r) (cr_url r) env (cr_item r) = (i', ev) ->
+    let r' := {| cr_url := cr_url r; cr_consult := cr_consult r; cr_item := i' |} in
+    (count_requests ev <= 2 * (Z.to_nat (c_max_redirects cfg) + 1))%nat /\
+    (if checked_out (cr_item r) then (row_budget tries r' < row_budget tries r)%nat
+     else r' = r /\ ev = []).
+  Proof.
+    intros r env i' ev Hrule Hv. cbn zeta.
+    destruct (visit_item_cases urljoin parseable cfg (cr_consult r) (cr_url r) tries Hrule env _ _ _ Hv)
+      as [(Hc & -> & ->)|(Hc & Ht & Hb & Hz & (s & Hs))].
+    - rewrite Hc. split; [cbn; lia|]. split; [destruct r; reflexivity|reflexivity].
+    - rewrite Hc. split; [exact Hb|]. unfold row_budget. cbn [cr_item]. rewrite Hc.
+      destruct (Z_le_gt_dec tries (it_tries (cr_item r))) as [Hle|Hgt].
+      + destruct (Hz Hle) as (_ & Hsk). unfold checked_out. rewrite Hsk. lia.
+      + destruct (checked_out i'); [rewrite Ht|]; lia.
+  Qed.
+
+  Lemma visit_nth_budget : forall k env rows rows' ev, rows_obey_tries rows ->
+    visit_nth' k env rows = (rows', ev) ->
+    rows_obey_tries rows' /\
+    (count_requests ev <= 2 * (Z.to_nat (c_max_redirects cfg) + 1))%nat /\
+    (if row_active k rows then (crawl_budget tries rows' < crawl_budget tries rows)%nat
+     else rows' = rows /\ ev = []).
+  Proof.
+    induction k as [|k IH]; intros env rows rows' ev Hob H; destruct rows as [|r rows]; cbn [visit_nth] in H.
+    - inversion H; subst. unfold row_active. cbn. repeat split; auto; lia.
+    - destruct (visit_item urljoin parseable cfg (cr_consult r) (cr_url r) env (cr_item r)) as [i' ev'] eqn:Hv.
+      inversion H; subst; clear H.
+      destruct (row_budget_step r env i' ev (Hob r (or_introl eq_refl)) Hv) as (Hb & Hd).
+      split.
+      { intros x [<-|Hin]; [cbn [cr_consult]; apply (Hob r (or_introl eq_refl)) | apply Hob; right; exact Hin]. }
+      split; [exact Hb|]. unfold row_active. cbn [nth_error crawl_budget fold_right].
+      destruct (checked_out (cr_item r)).
+      + fold (crawl_budget tries rows). lia.
+      + destruct Hd as (-> & ->). split; reflexivity.
+    - inversion H; subst. unfold row_active. cbn. repeat split; auto; lia.
+    - destruct (visit_nth' k env rows) as [rows'' ev'] eqn:Hv. inversion H; subst; clear H.
+      assert (Hob' : rows_obey_tries rows) by (intros x Hin; apply Hob; right; exact Hin).
+      destruct (IH _ _ _ _ Hob' Hv) as (Hob'' & Hb & Hd).
+      split.
+      { intros x [<-|Hin]; [apply Hob; left; reflexivity | apply Hob''; exact Hin]. }
+      split; [exact Hb|]. unfold row_active in *. cbn [nth_error crawl_budget fold_right].
+      destruct (match nth_error rows k with Some r0 => checked_out (cr_item r0) | None => false end).
+      + fold (crawl_budget tries rows) (crawl_budget tries rows''). lia.
+      + destruct Hd as (-> & ->). split; reflexivity.
+  Qed.
+
+  (* C18, last clause: whatever the scheduler and the servers do, a crawl over n rows makes at most
+     crawl_budget visits (<= n * (tries + 1) from a fresh table) - every execution is finite - and
+     sends at most crawl_budget * 2 * (max_redirects + 1) requests *)
+  Theorem crawl_terminates : forall sched rows rows' evs n, rows_obey_tries rows ->
+    crawl' sched rows = (rows', evs, n) ->
+    (n + crawl_budget tries rows' <= crawl_budget tries rows)%nat /\
+    (total_requests evs <= n * (2 * (Z.to_nat (c_max_redirects cfg) + 1)))%nat.
+  Proof.
+    induction sched as [|[k env] sched IH]; intros rows rows' evs n Hob H; cbn [crawl] in H.
+    { inversion H; subst. cbn. split; lia. }
+    destruct (visit_nth' k env rows) as [rows1 ev] eqn:Hv.
+    destruct (crawl' sched rows1) as [[rows2 evs'] n'] eqn:Hc. inversion H; subst; clear H.
+    destruct (visit_nth_budget _ _ _ _ _ Hob Hv) as (Hob1 & Hb & Hd).
+    destruct (IH _ _ _ _ Hob1 Hc) as (I1 & I2).
+    unfold total_requests in *. cbn [fold_right].
+    destruct (row_active k rows).
+    - split; [lia|nia].
+    - destruct Hd as (-> & ->). cbn. split; lia.
+  Qed.
+
+  (* once the budget is used up no row is handed out any more: the item source returns None *)
+  Theorem crawl_budget_zero_all_final : forall rows, crawl_budget tries rows = 0%nat ->
+    forall r, List.In r rows -> checked_out (cr_item r) = false.
+  Proof.
+    induction rows as [|x rows IH]; intros H r Hin; [destruct Hin|]. cbn [crawl_budget fold_right] in H.
+    fold (crawl_budget tries rows) in H.
+    destruct Hin as [<-|Hin].
+    - unfold row_budget in H. destruct (checked_out (cr_item x)); [lia|reflexivity].
+    - apply IH; [lia|exact Hin].
+  Qed.
+End CrawlBounds.
